@@ -53,6 +53,9 @@ RULES = [
     'statement) kills earlier bindings; returns guarded by _is_num / isinstance scalar / is None are scalars; documented exceptions: '
     'output dictionaries info / cache, `Y if inplace else copy(Y)`, parameters the docstring types as int / float / bool / str, '
     'branches that only an undocumented boolean parameter at a non-default value reaches',
+    'third-party routines with hidden randomness (scipy.sparse.linalg.eigsh / eigs / svds without v0=, lobpcg, scipy.stats, scipy.sparse.random, '
+    'randomised scipy.linalg.interpolative, stochastic scipy.optimize solvers, kmeans, ...) are Unknown; os / uuid / secrets are unknown modules '
+    '(Unknown); id / hash are rejected builtins; copying a seed / generator variable (copy.deepcopy(seed)) is an escape of the variable (Unknown)',
     'implicit exceptions raised inside NumPy are not modelled outside try blocks (they abort the call and are functions of '
     'the data); inside a try block every statement may raise',
 ]
@@ -64,6 +67,26 @@ GEN_ONLY_METHODS = {
     'multinomial', 'dirichlet', 'geometric', 'triangular', 'weibull', 'chisquare', 'spawn', 'bit_generator'}
 GEN_CTORS = {'numpy.random.default_rng'}
 PURE_ROOTS = {'numpy', 'scipy', 'opt_einsum', 'itertools', 'functools', 'pickle', 'numba', 'math', 'copy', 'warnings'}
+# third-party routines that own hidden randomness (a start vector / sample drawn from NumPy's global generator or from fresh OS
+# entropy) unless the caller supplies it: (dotted name prefix, keyword that makes the call deterministic or None)
+HIDDEN_RANDOM = [('scipy.sparse.linalg.eigsh', 'v0'), ('scipy.sparse.linalg.eigs', 'v0'), ('scipy.sparse.linalg.svds', 'v0'),
+                 ('scipy.sparse.linalg.lobpcg', None), ('scipy.sparse.linalg._eigen', None), ('scipy.sparse.random', None),
+                 ('scipy.sparse.rand', None), ('scipy.linalg.interpolative', None), ('scipy.stats', None),
+                 ('scipy.optimize.differential_evolution', None), ('scipy.optimize.dual_annealing', None), ('scipy.optimize.basinhopping', None),
+                 ('scipy.cluster.vq.kmeans', None), ('scipy.cluster.vq.kmeans2', None), ('scipy.spatial.distance', None),
+                 ('scipy.linalg.clarkson_woodruff_transform', None), ('numpy.testing', None), ('scipy.sparse.linalg.onenormest', None),
+                 ('scipy.sparse.linalg.expm_multiply', None), ('scipy.sparse.csgraph', None)]
+
+
+def hidden_random(d, keywords):
+    for pre, kw in HIDDEN_RANDOM:
+        if d == pre or d.startswith(pre + '.') or (pre.endswith('_eigen') and d.startswith(pre)):
+            if kw is not None and any(k.arg == kw and not (isinstance(k.value, ast.Constant) and k.value.value is None) for k in keywords):
+                return None
+            return pre
+    return None
+
+
 CLOCKS = {'time.perf_counter', 'time.time', 'time.monotonic', 'time.process_time', 'time.perf_counter_ns', 'time.time_ns'}
 BAD_BUILTINS = {'getattr', 'setattr', 'delattr', 'eval', 'exec', 'globals', 'locals', 'vars', '__import__', 'compile',
                 'hash', 'id', 'input', 'breakpoint'}
@@ -744,6 +767,8 @@ class Tr:
             return [self.U(n, f'clock {d} used outside the timing pattern')]
         if root == 'time':
             return []
+        if hidden_random(d, []):
+            return [self.U(n, f'{d} (a routine with hidden randomness) used as a value')]
         if root in PURE_ROOTS or root == 'teneva':
             return []
         return [self.U(n, f'use of unknown module {d}')]
@@ -818,6 +843,10 @@ class Tr:
                 return self.generic_args(n) + [('ev', ('GlobalDraw', P.site(self.fn, n, f'call of {d}')))]
             if d in CLOCKS:
                 return [self.U(n, f'clock {d} used outside the timing pattern')]
+            hr = hidden_random(d, n.keywords)
+            if hr:
+                return self.generic_args(n) + [self.U(n, f'call of {d}: the routine owns hidden randomness (start vector / sample from the '
+                                                         f'global generator or from OS entropy) -- results are not a function of the arguments')]
             if root in PURE_ROOTS or root == 'time':
                 return self.generic_args(n)
             if root != 'teneva':
